@@ -5,6 +5,8 @@ C09 - sync makes every target agree with the declared truth, whatever the target
 method, which interface description) is chosen and exhausted by the solver; the real conformance.ground_truth (and __main__.main)
 run on the in-memory file system of lib/fsstub.py with real black; file contents are concrete (they cross ast.parse / black).
 """
+import ast
+
 from harness.rt import TOL, permitted, tolerated  # noqa: F401
 from harness.syncenv import *  # noqa: F401,F403
 from harness.syncenv import FILES, KINDS, PRE, build, fn_name, parse_target, run_sync
@@ -50,6 +52,7 @@ def agrees(truth_i, given_i, pa, pb, method, ir_idx, active, via_main=False):
             raise
         truth_ir = parse_target(truth, fs.files[FILES[truth]], method)
         truth_ir.pop("_internal", None)
+        before_texts = dict(fs.files)
         try:
             if via_main:
                 run_main(fs, truth, given, method)
@@ -70,6 +73,11 @@ def agrees(truth_i, given_i, pa, pb, method, ir_idx, active, via_main=False):
             ir_k = parse_target(k, fs.files[FILES[k]], method)  # ast.parse: a SyntaxError here is a violation
             if ir_k is None:
                 return False
+            # "exactly one": a target that held at most one definition of that name before holds exactly one afterwards (a leftover
+            # copy of an earlier description next to the new one is not 'the named definition describes the truth')
+            if k != truth and not method and _ndefs(k, fs.files[FILES[k]]) > 1 and _ndefs(k, before_texts.get(FILES[k], "")) <= 1 and not (
+                    "KF-C09-stale-function" in active and k in ("function", "argparse_function") and PRE[pre.get(k, 4)] in ("stale", "stale_extra")):
+                return False
             kind = RTK.get(k, "method" if method else "function")
             tk = RTK.get(truth, "method" if method else "function")
             for where, code in iface_diffs(ir_k, truth_ir, kind, defaults_on=False):
@@ -85,6 +93,16 @@ def agrees(truth_i, given_i, pa, pb, method, ir_idx, active, via_main=False):
                     continue
                 return False
         return True
+
+
+def _ndefs(kind, text):
+    """number of module-level definitions carrying the target's name"""
+    name = {"argparse_function": "set_cli_args", "class": "ConfigClass", "function": "train"}[kind]
+    try:
+        body = ast.parse(text).body
+    except SyntaxError:
+        return 0
+    return len([n for n in body if isinstance(n, (ast.FunctionDef, ast.ClassDef)) and n.name == name])
 
 
 def second_file(truth_i, st, method, ir_idx, active):
@@ -148,6 +166,13 @@ def run_main(fs, truth, given, method):
             doctrans.__main__.main(argv)
     finally:
         undo()
+
+
+def agrees_twice(truth_i, pre, i1, i2, active):
+    """two syncs in ONE process: same paths, same target texts (fresh in-memory projects), a different truth description the second time -
+    the second result must agree with the second truth (nothing may survive from the first run)"""
+    truth_i, pre, i1, i2 = realize((truth_i, pre, i1, i2))
+    return agrees(truth_i, 0, pre, pre, 0, i1, active) and agrees(truth_i, 0, pre, pre, 0, i2, active)
 
 
 def grid_clean(rid, truth):
@@ -228,6 +253,11 @@ def obligations(tier, seed):
                     "non-truth target in {missing, empty, definition absent, stale, agreeing, stale-with-one-extra-trailing-parameter} and the interface description (pool of 3, one with a return entry that carries a default): exhaustive"
                     % (KINDS[t], "method" if m else "top-level function", "__main__.main(argv)" if via else "conformance.ground_truth"),
                     timeout=280 if tier == "quick" else 1200, path_timeout=120, funcs=FUNCS))
+    obs.append(Ob(name="agrees_twice_in_one_process", params=[("t", "int"), ("pre", "int"), ("i1", "int"), ("i2", "int")],
+                  pre=["0 <= t <= 2", "1 <= pre <= 3", "0 <= i1 <= 2", "0 <= i2 <= 2", "i1 != i2"], body="H.agrees_twice(t, pre, i1, i2, {ACTIVE})",
+                  witness=(1, 1, 0, 2), kind="F",
+                  bounds="every truth kind x targets {empty, definition absent, stale} x every ordered pair of different descriptions from the pool of 3: two "
+                  "syncs in one process on identical paths and target texts", timeout=280, funcs=FUNCS))
     obs.append(Ob(name="absent_but_nested_same_name", params=[("t", "int"), ("g", "int"), ("i", "int")], pre=["0 <= t <= 2", "0 <= g <= 2", "0 <= i <= 2"],
                   body="H.agrees(t, g, 6, 6, 0, i, {ACTIVE})", witness=(1, 0, 0), kind="F",
                   bounds="every truth kind x which kinds are given x 3 descriptions; every target file lacks the definition at module level but holds "
